@@ -259,6 +259,22 @@ def t_radiation(eng):
     cur = NDArr([fresh_cx('I%d' % k) for k in range(NP_)])
     pv.fields.update({'point': point, 'sign': sign, 'seg_len': seg_len, 'dirvec': dirvec,
                       'ground': NDArr(gr), 'inv_ground': NDArr([[r[1], r[0]] for r in gr])})
+    # further per-pulse data of the real container that the radiation sum does not use today (a change that starts using them
+    # is then decided, not undecided); their meaning is the container's: both halves on one object / same direction / same length
+    # (concrete per path, so that a mask built from them selects rows the way numpy does)
+    # per pulse 0: junction of two objects; 1: both halves on one object, same direction.  Three patterns: all junctions, all
+    # interior, the first interior and the others junctions
+    pats = [[0] * NP_, [1] * NP_] + ([[1] + [0] * (NP_ - 1)] if NP_ > 1 else [])
+    kinds = pats[eng.choose(len(pats))]
+    pv.fields['same_geobj'] = NDArr([bool(kd) for kd in kinds])
+    sd = [bool(kd) for kd in kinds]
+    sl_ = [fresh_bool('same_len%d' % k) for k in range(NP_)]
+    for k in range(NP_):
+        if kinds[k]:
+            eng.assume(SV(z3.And(*[term(dirvec.data[k][0][c], True) == term(dirvec.data[k][1][c], True) for c in range(3)]), 'bool'))
+        eng.assume(SV(bterm(sl_[k]) == (term(seg_len.data[k][0], True) == term(seg_len.data[k][1], True)), 'bool'))
+    pv.fields['same_dir'] = NDArr(sd)
+    pv.fields['same_len'] = NDArr(sl_)
     m.fields['current'] = cur
     eng.summaries['Pulse_Container.__len__'] = lambda e, a, k: NP_
     eng.summaries['Mininec.image_iter'] = lambda e, a, k: SList([('conc', [1, -1] if ground else [1])])
